@@ -65,6 +65,10 @@ def facts_for(repo="/repo", config="prod", log=None):
     out_dir = os.path.join(CACHE, "facts", h, config)
     info = {"src_hash": h, "files_hashed": nfiles, "config": config, "cached": True, "extract_s": 0.0}
     if all(os.path.exists(os.path.join(out_dir, e)) for e in EXPECTED):
+        try:
+            os.utime(os.path.join(CACHE, "facts", h))  # keep entries in use young for _prune_cache
+        except OSError:
+            pass
         return out_dir, info
     lock_path = os.path.join(CACHE, "lock")
     with open(lock_path, "w") as lock:
@@ -126,8 +130,9 @@ def _prune_cache(keep, max_entries=6):
     except OSError:
         return
     ents.sort(reverse=True)
-    for _, d in ents[max_entries:]:
-        if d != keep:
+    now = time.time()
+    for mt, d in ents[max_entries:]:
+        if d != keep and now - mt > 600:  # never evict an entry another process may be about to load
             shutil.rmtree(os.path.join(base, d), ignore_errors=True)
 
 
